@@ -38,6 +38,7 @@ impl EventStore {
             .truncate(false)
             .create(true)
             .open(event_map_file)?;
+        vpoint!("es.new.opened");
 
         // Get it's size
         let metadata = event_map_file.metadata()?;
@@ -52,10 +53,12 @@ impl EventStore {
             // grow to initial size
             len = EVENT_MAP_CHUNK;
             event_map_file.set_len(EVENT_MAP_CHUNK as u64)?;
+            vpoint!("es.new.sized");
         }
 
         // Memory map it
         let event_map = unsafe { MmapAppend::new(&event_map_file, new)? };
+        vpoint!("es.new.mapped");
 
         Ok(EventStore {
             event_map_file,
@@ -87,17 +90,26 @@ impl EventStore {
     pub(crate) fn store_event(&self, event: &Event) -> Result<usize, Error> {
         // Align to 8 bytes
         let mut end = self.event_map.get_end();
+        vpoint!("es.store.begin");
         if end % 8 != 0 {
             let padding = 8 - (end % 8);
             end += padding;
             assert_eq!(end % 8, 0);
             let _ = self.event_map.append(padding, |_| Ok(padding))?;
+            vpoint!("es.store.padded");
         }
 
         let event_size = event.len();
 
         loop {
             let result = self.event_map.append(event_size, |dst| {
+                #[cfg(feature = "verif")]
+                {
+                    // copy the first half only, yield, then let the full copy below run
+                    let half = event_size / 2;
+                    dst[..half].copy_from_slice(&event.as_bytes()[..half]);
+                    vpoint!("es.store.halfcopied");
+                }
                 event.copy(dst).map_err(std::io::Error::other)
             });
 
@@ -114,9 +126,11 @@ impl EventStore {
 
                             // Grow the file
                             self.event_map_file.set_len(new_file_len as u64)?;
+                            vpoint!("es.grow.setlen");
 
                             // Resize the memory map
                             self.event_map.resize(new_file_len)?;
+                            vpoint!("es.grow.remapped");
 
                             // Save this new length
                             self.event_map_file_len
